@@ -543,7 +543,9 @@ func newHolders(dir string) ([]holder, error) {
 	}
 
 	hs = append(hs, holder{Name: "tls_key_store", path: p2, fire: func() { rw.Fire(p2) }, usable: func() error {
-		cert, err := tlsCfg.GetCertificate(&tls.ClientHelloInfo{ServerName: "localhost", SupportedVersions: []uint16{tls.VersionTLS13},
+		// (no server name: a reload may legitimately bring a certificate for other names - e.g. a generated mutation of
+		// the fixture which still parses; all that counts is that the holder can still present some certificate)
+		cert, err := tlsCfg.GetCertificate(&tls.ClientHelloInfo{SupportedVersions: []uint16{tls.VersionTLS13},
 			SignatureSchemes: []tls.SignatureScheme{tls.ECDSAWithP256AndSHA256, tls.ECDSAWithP384AndSHA384, tls.ECDSAWithP521AndSHA512, tls.PSSWithSHA256, tls.PSSWithSHA384,
 				tls.PSSWithSHA512, tls.PKCS1WithSHA256, tls.PKCS1WithSHA384}, SupportedCurves: []tls.CurveID{tls.CurveP256, tls.CurveP384, tls.CurveP521},
 			CipherSuites: []uint16{tls.TLS_AES_128_GCM_SHA256}})
